@@ -72,6 +72,24 @@ type keySet struct {
 	prefix     int
 }
 
+// class groups key sets for violation signatures (one bug in the hashing of
+// all integer widths should give a few signatures, not one per key set).
+func (ks *keySet) class() string {
+	switch ks.name {
+	case "uint8", "int8", "uint16", "int16":
+		return "8/16-bit-int"
+	case "uint32", "int32", "uint64", "int64", "uint", "int", "uintptr":
+		return "wide-int"
+	case "float32", "float64":
+		return "float"
+	case "string", "[]byte":
+		return "string-or-bytes"
+	case "bool":
+		return "bool"
+	}
+	return "2-column-prefix"
+}
+
 func mkSet1[T any](name string, keys []T, canon func(T) string, exhaustive bool) *keySet {
 	ks := &keySet{name: name, n: len(keys), exhaustive: exhaustive, prefix: 1}
 	ks.ids = make([]int32, len(keys))
